@@ -132,6 +132,24 @@ def install(kernel, simos):
                     found.append("%s.%s{start,join,is_alive}" % (name, attr))
         # every whoosh module gets a simulated builtin open
         _set(mod, "open", simos.open)
+    # RamStorage does no OS calls: give its operations event boundaries so
+    # that threads sharing a RAM index can be interleaved and observed
+    from whoosh.filedb.filestore import RamStorage
+
+    def wrap_ram(name):
+        orig = RamStorage.__dict__[name]
+
+        def method(self, *a, **k):
+            kernel.event("ram." + name, ",".join(str(x) for x in a[:2]))
+            r = orig(self, *a, **k)
+            if name == "rename_file":
+                kernel.post_event("rename", "%s>%s" % (a[0], a[1]))
+            return r
+        method.__name__ = name
+        return method
+    for nm in ("create_file", "open_file", "list", "file_exists", "delete_file",
+               "rename_file", "file_length"):
+        _set(RamStorage, nm, wrap_ram(nm))
     # fcntl is imported inside FcntlLock.acquire/release
     _originals.append((sys.modules, "fcntl", sys.modules.get("fcntl", _MISSING)))
     sys.modules["fcntl"] = simos.fcntl
